@@ -5,7 +5,8 @@ namespace Driver.C14
 open IdModel.Doc IdModel.Meta IdModel.OSet
 
 /-- DIDs 0..4 are IOTA DIDs, 9 is the placeholder `did:0:0`, everything else is a DID of another method -/
-def isIota (x : Nat) : Bool := x < 5
+-- DIDs 0..4 are IOTA DIDs; 20..24 are IOTA DIDs with the SAME tags on another network (so: other DIDs)
+def isIota (x : Nat) : Bool := x < 5 || (20 ≤ x && x < 25)
 def placeholder : Nat := 9
 
 def parseMth (t : String) : Option Mth :=
@@ -37,7 +38,8 @@ def parseIDoc (t : String) : Option IDoc :=
     let a4 ← C04.parseList parseMR (← C04.field "a4" rest)
     let sv ← C04.parseList C04.parseService (← C04.field "sv" rest)
     let ad ← C04.field "ad" rest
-    pure ⟨i, ct, vm, a0, a1, a2, a3, a4, sv, ad == "1", 0⟩
+    -- `ad`: bit 0 = ledger addresses present; the higher bits select a metadata variant the model does not look at
+    pure ⟨i, ct, vm, a0, a1, a2, a3, a4, sv, (ad.toNat?.getD 0) % 2 == 1, 0⟩
   | [] => none
 
 def showMth (m : Mth) : String := s!"{C04.showId m.id}.{m.body}.{m.controller}"
